@@ -200,7 +200,12 @@ def run(rep):
             sizes = keep + r.sample([x for x in sizes if x not in keep], min(2, max(0, len(sizes) - len(keep))))
         # class A: seek and skip offered
         variants = [("A", dict(source=(1,)))]
-        variants += [("A", dict(source=(0,), rplan=[sz] * (len(arc) // sz + 2), has_skip=1, has_seek=1)) for sz in sizes]
+        # (seekable readers go back and read again: the plan is three passes long, so that the block size holds throughout)
+        variants += [("A", dict(source=(0,), rplan=[sz] * (3 * (len(arc) // sz + 2)), has_skip=1, has_seek=1)) for sz in sizes]
+        if not small and len(arc) <= 40000 and readcore.MUST_REFS.search(name):
+            # decoders that fetch single bytes behind the block they were given (PPMd range decoder, ...): blocks so
+            # small that a symbol regularly needs more than the block has left
+            variants += [("A", dict(source=(0,), rplan=[sz] * (3 * (len(arc) // sz + 2)), has_skip=1, has_seek=1)) for sz in (1, 3)]
         variants += [("A", dict(source=(2, r.choice([1, 7, 512, 10240])))), ("A", dict(source=(3, r.choice([3, 513, 65536])))),
                      ("A", dict(source=(5,)))]
         if len(arc) > 4:
